@@ -158,7 +158,11 @@ type jsonField struct {
 	asString  bool
 }
 
-func jsonFields(st *types.Struct) []jsonField {
+func jsonFields(st *types.Struct) []jsonField { return jsonFieldsP(st, false) }
+
+// jsonFieldsP: with throughPtr the fields of an embedded *pointer* to a struct are promoted as well (what
+// encoding/json does; on the encoding side a nil embedded pointer contributes no members).
+func jsonFieldsP(st *types.Struct, throughPtr bool) []jsonField {
 	var out []jsonField
 	for i := 0; i < st.NumFields(); i++ {
 		f := st.Field(i)
@@ -173,8 +177,8 @@ func jsonFields(st *types.Struct) []jsonField {
 				ft = p.Elem()
 			}
 			if est, ok := ft.Underlying().(*types.Struct); ok {
-				if _, isPtr := f.Type().Underlying().(*types.Pointer); !isPtr {
-					for _, sub := range jsonFields(est) {
+				if _, isPtr := f.Type().Underlying().(*types.Pointer); !isPtr || throughPtr {
+					for _, sub := range jsonFieldsP(est, throughPtr) {
 						sub.index = append([]int{i}, sub.index...)
 						out = append(out, sub)
 					}
@@ -302,9 +306,17 @@ func (e *Engine) marshalValue(fr *frame, t types.Type, v Value) (*Doc, *jsonErr)
 	case *types.Struct:
 		s := v.(Struct)
 		d := e.newDoc(DObj)
-		for _, f := range jsonFields(u) {
+	fields:
+		for _, f := range jsonFieldsP(u, true) {
 			fv := Value(s)
 			for _, ix := range f.index {
+				if p, isPtr := fv.(*Value); isPtr {
+					// promoted through an embedded pointer
+					if p == nil {
+						continue fields
+					}
+					fv = *p
+				}
 				fv = fv.(Struct)[ix]
 			}
 			if f.omitEmpty && e.branch(e.isEmptyValue(f.typ, fv)) {
